@@ -19,9 +19,16 @@ impl TemplateLibrary {
         let mut templates = HashMap::new();
 
         let mut elem_id = 0;
+        // Visit the files in the order they were parsed. If a name is defined more
+        // than once (which the parser reports) the first definition is kept, as in
+        // a program archive.
+        let mut library_contents = library_contents.into_iter().collect::<Vec<_>>();
+        library_contents.sort_by_key(|(file_id, _)| *file_id);
         for (file_id, file_contents) in library_contents {
             for definition in file_contents {
                 match definition {
+                    Definition::Function { name, .. } if functions.contains_key(&name) => {}
+                    Definition::Template { name, .. } if templates.contains_key(&name) => {}
                     Definition::Function { name, args, arg_location, body, .. } => {
                         functions.insert(
                             name.clone(),
